@@ -373,6 +373,34 @@ def r8_every_node_written(idx, r):
     r.require(seq == ["self._db.writeToDB(self.r, 'EOL')", "self.closeDB()"], "interactEOL:EOL-state-then-close", eol, msg=f"end of life writes the EOL state and then finalises: {seq}")
 
 
+def r9_identity_floor(idx, r):
+    """Histories match objects by serial number. After loading a snapshot the global serial counter must not be below
+    ANY serial number stored in it, or objects created afterwards reuse stored identities: it is raised to the maximum
+    over the whole layout, not to one representative element."""
+    f = idx.method("armi.bookkeeping.db.database.Database", "load")
+    if f is None:
+        raise AnchorMissing("Database.load")
+    st = [s_ for s_ in iter_stores(f.node) if s_.attr == "GLOBAL_SERIAL_NUM" and s_.kind == "assign"]
+    if not st:
+        r.violate("load:serial-floor", f, "Database.load no longer raises GLOBAL_SERIAL_NUM: objects created after a load collide with stored identities")
+        return
+    v = st[0].value
+    ok_max = isinstance(v, ast.Call) and dotted(v.func) == "max" and any("GLOBAL_SERIAL_NUM" in norm(a) for a in v.args)
+    others = [a for a in (v.args if isinstance(v, ast.Call) else []) if "GLOBAL_SERIAL_NUM" not in norm(a)]
+
+    def aggregate(e):
+        while isinstance(e, ast.Call) and dotted(e.func) in ("int", "float") and e.args:
+            e = e.args[0]
+        if isinstance(e, ast.Call) and isinstance(e.func, ast.Attribute) and e.func.attr == "max" and "serialNum" in norm(e.func.value) and not isinstance(e.func.value, ast.Subscript):
+            return True
+        if isinstance(e, ast.Call) and dotted(e.func) in ("max", "np.max", "np.amax", "numpy.max") and e.args and "serialNum" in norm(e.args[0]) and not isinstance(e.args[0], ast.Subscript):
+            return True
+        return False
+    r.require(ok_max and len(others) == 1 and aggregate(others[0]), "load:serial-floor", f, node=st[0].stmt,
+              msg=f"`{norm(st[0].stmt)[:90]}`: the counter must become max(current, maximum over ALL stored serial numbers); a single element "
+                  "(e.g. the last one stored) is not the maximum when a newer object is stored before an older one")
+
+
 def run(idx, chk):
     chk.explanation = (
         "C06: writers of the successfulCompletion flag and callers that can pass a true value; the chain Case.run -> Operator.__exit__ -> "
@@ -394,3 +422,5 @@ def run(idx, chk):
     chk.run_rule("R06.8", "each time node is written exactly once by one of two cooperating sites (EveryNode hook xor post-coupling write), EOL state then close", lambda r: r8_every_node_written(idx, r), floor=5,
                  necessary="a completed run holds every node plus the end-of-life state")
     chk.run_rule("R06.7", "every name used in safeMove/safeCopy and the database modules resolves", lambda r: r7_names(idx, r), floor=60, necessary="a NameError on the file-move path loses the database")
+    chk.run_rule("R06.9", "after a load the global serial counter is at least the maximum serial number of the whole layout", lambda r: r9_identity_floor(idx, r), floor=1,
+                 necessary="'the same object, matched by identity': identities handed out after a load must not collide with stored ones")
